@@ -163,10 +163,18 @@ class Chain:
         """Rows of chain(d, k); k = 0 is the focus widget (rendered with focus: `focus_rows`)."""
         return ite(k <= 0, focus_rows, self.R(d, k) - self.R(d, k - 1))
 
+    def mono(self, d, a, b):
+        """Lemma `chain-rows-monotone` (below), instantiated: R(d, a) <= R(d, b) for 0 <= a <= b with OK(d, b)."""
+        cur().assume(implies(both(0 <= a, a <= b, self.ok(d, b)), both(self.R(d, a) <= self.R(d, b), self.ok(d, a))))
+
     def neighbour(self, d, position):
         P = PROTOCOLS["ListWalker"]
         name = "get_prev" if d == UP else "get_next"
-        return P.uf_value(cur(), name, self.walker, [V._z(position)], P.methods[name].result, self.ver)
+        m = P.methods[name]
+        r = P.uf_value(cur(), name, self.walker, [V._z(position)], m.result, self.ver)
+        for f in m.ensures(cur(), self.walker, {"position": position}, r):  # the protocol's own clauses for this answer
+            cur().assume(f)
+        return r
 
     def unfold(self, d, k):
         """Definitional axioms at step k (for k >= 0): chain(d, k+1) from chain(d, k)."""
@@ -204,6 +212,57 @@ def cursor_row_visible(cursor, off, maxrow):
     return both(0 <= off + cursor[1], off + cursor[1] < maxrow)
 
 
+def item_ok(fill, j, maxcol):
+    """Entry j of a fill list carries the rows its widget reports at this width (unfocused)."""
+    w, _p, r = Q.seq_get(fill, j)
+    return r == rows_of(w, maxcol, False)
+
+
+def every_item_ok(fill, maxcol, name):
+    """`for every index j of the fill list: item_ok` as a statement about ONE arbitrary index (universal
+    generalisation, pyvc.values.arbitrary): proved / assumed for that index only, hence for all."""
+    n = Q.seq_len(fill)
+    if isinstance(n, int):
+        return both(True, *[item_ok(fill, j, maxcol) for j in range(n)])
+    q = V.arbitrary(name)
+    return implies(both(0 <= q, q < n), item_ok(fill, q, maxcol))
+
+
+def last_listed(ch, fill, fpos, kb, kl):
+    """chain(DOWN, kl) is the bottommost item that is listed (the focus when nothing is): whatever the walker has
+    between it and chain(DOWN, kb) has no rows."""
+    n = Q.seq_len(fill)
+    if isinstance(n, int):
+        bottom_pos = Q.seq_get(fill, n - 1)[1] if n > 0 else fpos
+    else:
+        bottom_pos = ite(n > 0, Q.seq_get(fill, n - 1)[1], fpos)
+    return both(0 <= kl, kl <= kb, ch.R(DOWN, kl) == ch.R(DOWN, kb), bottom_pos == ch.pos(DOWN, kl), implies(n == 0, kl == 0))
+
+
+def _kl_at_head(v):
+    """Ghost of loop 3: the chain index of the last item appended to fill_below.  At the loop head of the arbitrary
+    iteration it is an unknown of the invariant (a fresh constant when the invariant is assumed); when the invariant
+    is re-established after the body it is the index just appended, or the old one when a 0-row widget was skipped."""
+    st = cur()
+    if isinstance(v.i_, int):
+        return 0  # inv-init: nothing walked yet
+    if st.ghost.get("inv_assuming"):
+        st.ghost["lb_kl"] = st.fresh_int("kl")
+        return st.ghost["lb_kl"]
+    # inv-preserve: v.i_ = j + 1 items walked, the last one (n_rows) appended unless it had no rows
+    return ite(v.n_rows != 0, v.i_, st.ghost["lb_kl"])
+
+
+def _kl_final():
+    end = loop_end(1)
+    st = cur()
+    if isinstance(end.i_, int) or "lb_kl" not in st.ghost:
+        return 0
+    if end.broke_ and not is_none(end.next_pos):
+        return end.i_ + 1  # left on the item that crosses the bottom edge: it has rows and was appended
+    return st.ghost["lb_kl"]
+
+
 def loop_end(ordinal):
     return cur().ghost["loop_end"][ordinal]
 
@@ -236,6 +295,7 @@ def _cv_loop_above(v):
     yield "lines-left", both(v.fill_lines == e.offset_rows - ch.R(UP, k), v.fill_lines >= 0)
     yield "walked-on-only-while-lines-were-left", implies(k >= 1, ch.R(UP, k - 1) < e.offset_rows)
     yield "offset-and-trim-untouched", both(v.offset_rows == e.offset_rows, v.trim_top == e.trim_top)
+    yield "every-listed-item-has-its-widgets-rows", every_item_ok(v.fill_above, v.maxcol, "cv.above")
 
 
 def _cv_loop_below(v):
@@ -250,6 +310,10 @@ def _cv_loop_below(v):
     yield "lines-left", both(v.fill_lines == v.maxrow - v.focus_rows - off - ch.R(DOWN, j), implies(j >= 1, v.fill_lines >= 0))
     yield "walked-on-only-while-lines-were-left", implies(j >= 1, v.maxrow - v.focus_rows - off - ch.R(DOWN, j - 1) > 0)
     yield "trim-untouched", v.trim_bottom == imax(v.focus_rows + off - v.maxrow, 0)
+    yield "every-listed-item-has-its-widgets-rows", every_item_ok(v.fill_below, v.maxcol, "cv.below")
+    kl = _kl_at_head(v)
+    ch.unfold(DOWN, kl)
+    yield "last-listed-item-below", last_listed(ch, v.fill_below, v.focus_pos, j, kl)
 
 
 def _cv_loop_refill(v):
@@ -269,15 +333,18 @@ def _cv_loop_refill(v):
     yield "trim-top-inside-the-topmost-item", both(v.trim_top >= 0, implies(v.trim_top > 0, v.trim_top < ch.item_rows(UP, k, v.focus_rows)))
     yield "a-focus-row-stays-visible", implies(v.focus_rows >= 1, both(off < v.maxrow, off + v.focus_rows >= 1))
     yield "cursor-row-stays-visible", cursor_row_visible(v.cursor, off, v.maxrow)
+    yield "every-listed-item-has-its-widgets-rows", every_item_ok(v.fill_above, v.maxcol, "cv.above")
 
 
 CV_RESULT = Tup(Tup(Int, WIDGET, Int, Dim, Opt(Tup(Nat, Nat))), Tup(Int, FILL), Tup(Int, FILL))
 
 
-def cv_clauses(ch, s, a, result, ka, kb):
-    """The postcondition of calculate_visible for the witnesses ka, kb (items walked above / below)."""
+def cv_clauses(ch, s, a, result, ka, kb, kl, callee=False):
+    """The postcondition of calculate_visible for the witnesses ka, kb (items walked above / below) and kl (the
+    bottommost listed item)."""
     maxcol, maxrow = a.size
     (off, fw, fpos, frows, cursor), (tt, above), (tb, below) = result
+    above, below = [x.seq if isinstance(x, Q.LRef) else x for x in (above, below)]  # the lists' contents now (values)
     A, B = cps_rows(above), cps_rows(below)
     ch.unfold(UP, ka)
     ch.unfold(UP, ka - 1)
@@ -296,6 +363,19 @@ def cv_clauses(ch, s, a, result, ka, kb):
     yield "a-focus-row-is-visible", implies(frows >= 1, both(off < maxrow, off + frows >= 1))
     yield "focus-not-below-the-box", off <= maxrow
     yield "cursor-row-is-visible", cursor_row_visible(cursor, off, maxrow)
+    W = PROTOCOLS["Widget"]
+    wants = both(a.focus, W.call_quiet(cur(), fw, "selectable", {}), W.hasattr(None, cur(), fw, "get_cursor_coords"))
+    reported = W.call_quiet(cur(), fw, "get_cursor_coords", dict(size=(maxcol,)))
+    yield "cursor-is-what-the-focused-selectable-focus-widget-reports", either(both(wants, V.opt_eq(cursor, reported)), both(neg(wants), V.opt_isnone(cursor)))
+    ch.unfold(DOWN, kl)
+    yield "last-listed-item-below", last_listed(ch, below, fpos, kb, kl)
+    if callee:
+        # per-item clauses: kept as lazy facts, instantiated by the caller at the indices it looks at
+        V.lazy_forall(0, Q.seq_len(above), lambda j: item_ok(above, j, maxcol))
+        V.lazy_forall(0, Q.seq_len(below), lambda j: item_ok(below, j, maxcol))
+    else:
+        yield "every-item-above-has-its-widgets-rows", every_item_ok(above, maxcol, "cv.above")
+        yield "every-item-below-has-its-widgets-rows", every_item_ok(below, maxcol, "cv.below")
 
 
 @contract(LBX + "ListBox.calculate_visible", property=("C07", "C08"), replayable=False)
@@ -326,15 +406,16 @@ class lb_calculate_visible:
         if os.environ.get("LBDBG"):
             e0, e1, e2 = loop_end(0), loop_end(1), loop_end(2)
             print("PATH", cur().path_key(), "L2", e0.broke_, e0.broke_ and is_none(e0.prev), "L3", e1.broke_, e1.broke_ and is_none(e1.next_pos), "L4", e2.broke_, e2.broke_ and is_none(e2.prev))
-        yield from cv_clauses(ch, s, a, result, ka, _kb())
+        yield from cv_clauses(ch, s, a, result, ka, _kb(), _kl_final())
         yield "moves-no-focus", walker_focus(s, "exit")[1] == walker_focus(old, "entry")[1]
 
     def ensures_callee(old, s, a, result):
         st = cur()
         ch = Chain(old, a.size[0])
-        ka, kb = st.fresh_int("ka"), st.fresh_int("kb")
-        st.ghost["cv_witness"] = (ch, ka, kb)
-        yield from cv_clauses(ch, s, a, result, ka, kb)
+        ka, kb, kl = st.fresh_int("ka"), st.fresh_int("kb"), st.fresh_int("kl")
+        st.ghost["cv_witness"] = (ch, ka, kb, kl, result)
+        st.ghost["cv_lists"] = (Q.to_sseq(result[1][1]), Q.to_sseq(result[2][1]))  # the lists as returned (render reverses one in place)
+        yield from cv_clauses(ch, s, a, result, ka, kb, kl, callee=True)
 
 
 # ------------------------------------------------------------------------------------------------ _set_focus_valign_complete
@@ -396,6 +477,101 @@ class lb_set_focus_valign_complete:
         yield "moves-no-focus", walker_focus(s, "exit")[1] == g[1]
 
 
+# ------------------------------------------------------------------------------------------------ render
+
+
+def _cv():
+    """(chain, ka, kb, kl, above, below, ...) of the calculate_visible call made by render on this path."""
+    ch, ka, kb, kl, result = cur().ghost["cv_witness"]
+    return ch, ka, kb, kl, result
+
+
+def _cv_lists():
+    return cur().ghost["cv_lists"]
+
+
+def _widths_ok(comb, n, maxcol):
+    """Every canvas collected so far is maxcol wide: stated for one arbitrary index (the one CanvasCombine's
+    equal-widths obligation is stated for) and for index 0."""
+    if isinstance(comb, (tuple, list)):
+        return both(True, *[c[0].ncols == maxcol for c in comb])
+    k = V.arbitrary("CanvasCombine.k")
+    return both(implies(both(0 <= k, k < n), Q.seq_get(comb, k)[0].ncols == maxcol), implies(n > 0, Q.seq_get(comb, 0)[0].ncols == maxcol))
+
+
+def _render_loop_above(v):
+    above, below = _cv_lists()
+    n = Q.seq_len(above)
+    i = v.i_
+    V.instantiate(n - 1 - i)
+    cps = Q.seq_cpsum(above, 2)
+    comb = v.combinelist.seq
+    yield "one-canvas-per-item-so-far", Q.seq_len(comb) == i
+    yield "rows-so-far", both(v.rows == cps(n) - cps(n - i), Q.to_sseq(comb).psum(i) == v.rows)
+    yield "all-canvases-maxcol-wide", _widths_ok(comb, i, v.maxcol)
+
+
+def _render_loop_below(v):
+    above, below = _cv_lists()
+    na = Q.seq_len(above)
+    i = v.i_
+    V.instantiate(i)
+    comb = v.combinelist.seq
+    m = na + 1 + i
+    yield "one-canvas-per-item-so-far", Q.seq_len(comb) == m
+    yield "rows-so-far", both(v.rows == Q.seq_cpsum(above, 2)(na) + v.focus_rows + Q.seq_cpsum(below, 2)(i), Q.to_sseq(comb).psum(m) == v.rows)
+    yield "all-canvases-maxcol-wide", _widths_ok(comb, m, v.maxcol)
+
+
+def _render_loop_tail(v):
+    """The consistency check below the last rendered item: it walks chain(DOWN, kl+1 ..), items without rows."""
+    ch, ka, kb, kl, _r = _cv()
+    q = kl + 1 + v.i_
+    ch.unfold(DOWN, q - 1)
+    ch.unfold(DOWN, q)
+    ch.mono(DOWN, q, kb)
+    ch.mono(DOWN, kl, q - 1)
+    g = ch.neighbour(DOWN, ch.pos(DOWN, q - 1))
+    yield "within-the-rowless-tail", both(kl + 1 <= q, q <= kb + 1, ch.ok(DOWN, q - 1))
+    yield "looking-at-the-next-chain-item", both(V.opt_eq(v.widget, g[0]), v.next_pos == g[1])
+
+
+@contract(LBX + "ListBox.render", property="C07", replayable=False, abstract_contains=True)
+class lb_render:
+    """The canvas has exactly the size asked, and nothing on the way raises: every listed widget renders the rows
+    calculate_visible listed for it, the two trims are inside the combined canvas, the rows never exceed the box, and
+    when rows are left blank the walker has nothing with rows below the last rendered item (so none of render's own
+    ListBoxError consistency checks fires).  Not expressed: the cursor of the canvas (CanvasCombine leaves it
+    unspecified for a list of symbolic length)."""
+
+    self_shape = LB
+    params = dict(size=Tup(Int, Int), focus=Bool)
+    result = CCANVAS
+    raises = ()
+    modifies = ("_rendered_size",)
+
+    def requires(s, a):
+        return both(no_change_pending(s), nonempty(s), size_ok(a.size), lb_ok(s))
+
+    def call_real(ip, st, f, args, kwargs):
+        if f is frozenset and len(args) == 1 and isinstance(args[0], (Q.SSeq, Q.LRef)):
+            # frozenset(<positions of the rendered items>): only asked `x in ...` here, which the contract leaves
+            # unspecified (abstract_contains: both answers are explored)
+            return args[0]
+        return NotImplemented
+
+    loops = {
+        0: Loop(invariant=_render_loop_above, shapes={"combinelist": COMBINE_LIST}),
+        1: Loop(invariant=_render_loop_below, shapes={"combinelist": COMBINE_LIST}),
+        2: Loop(invariant=_render_loop_tail, counter=True),
+    }
+
+    def ensures(old, s, a, result):
+        yield "canvas-is-the-box", both(result.ncols == a.size[0], result.nrows == a.size[1])
+        yield "size-remembered", both(s._rendered_size[0] == a.size[0], s._rendered_size[1] == a.size[1])
+        yield "moves-no-focus", walker_focus(s, "exit")[1] == walker_focus(old, "entry")[1]
+
+
 @lemma("chain-rows-non-negative", property="C07")
 class chain_rows_nonneg:
     """R(d, k) >= 0 for every k >= 0 with OK(d, k) -- induction on k: R(d, 0) = 0; OK(d, k+1) implies OK(d, k) and
@@ -410,3 +586,19 @@ class chain_rows_nonneg:
     def claim(x):
         yield "base", 0 >= 0
         yield "step", implies(x.ok_k1, x.rk + x.rows >= 0)
+
+
+@lemma("chain-rows-monotone", property="C07")
+class chain_rows_monotone:
+    """For 0 <= a <= b with OK(d, b): OK(d, a) and R(d, a) <= R(d, b) -- induction on b from a: base b = a; step:
+    OK(d, b+1) implies OK(d, b) and R(d, b+1) = R(d, b) + rows, rows >= 0.  Used, instantiated, by `Chain.mono`."""
+
+    params = dict(ra=Int, rb=Int, rows=Int, ok_a=Bool, ok_b=Bool, ok_b1=Bool)
+
+    def requires(x):
+        # defining equations at step b, induction hypothesis at b
+        return both(implies(x.ok_b1, x.ok_b), x.rows >= 0, implies(x.ok_b, both(x.ok_a, x.ra <= x.rb)))
+
+    def claim(x):
+        yield "base", implies(x.ok_a, both(x.ok_a, x.ra <= x.ra))
+        yield "step", implies(x.ok_b1, both(x.ok_a, x.ra <= x.rb + x.rows))
